@@ -518,3 +518,213 @@ Example newtype_bool_example :
   struct_from bool unit (option bool) bool_parse Some (fun e => e) [116;114;117;101] = Ok (Some true) /\
   struct_from bool unit (option bool) bool_parse Some (fun e => e) [84;114;117;101] = Err tt.
 Proof. split; reflexivity. Qed.
+
+(* ================================================================== growth round *)
+
+Lemma filter_none {A} (p : A -> bool) l : (forall x, In x l -> p x = false) -> filter p l = [].
+Proof.
+  induction l as [|a l IH]; intros H; [reflexivity|]. cbn [filter].
+  rewrite (H a (or_introl eq_refl)). apply IH. intros x Hx. apply H. right; exact Hx.
+Qed.
+
+Lemma filter_all {A} (p : A -> bool) l : (forall x, In x l -> p x = true) -> filter p l = l.
+Proof.
+  induction l as [|a l IH]; intros H; [reflexivity|]. cbn [filter].
+  rewrite (H a (or_introl eq_refl)). f_equal. apply IH. intros x Hx. apply H. right; exact Hx.
+Qed.
+
+Section Shapes.
+  Variable lower : str -> str.
+  Notation lkey v := (lower (iname v)).
+
+  Lemma filter_key_single : forall vs v,
+    NoDup (map (fun w => lkey w) vs) -> In v vs -> filter (fun w => str_eqb (lkey w) (lkey v)) vs = [v].
+  Proof.
+    induction vs as [|a vs IH]; intros v ND HI; [destruct HI|]. cbn [map] in ND. inversion ND as [|x l NI ND']; subst.
+    cbn [filter]. destruct HI as [->|HI].
+    - rewrite str_eqb_refl. f_equal. apply filter_none. intros w Hw. apply str_eqb_neq. intros E.
+      apply NI. rewrite <- E. apply (in_map (fun w => lkey w)). exact Hw.
+    - destruct (str_eqb (lkey a) (lkey v)) eqn:E.
+      + apply str_eqb_eq in E. exfalso. apply NI. rewrite E. apply (in_map (fun w => lkey w)). exact HI.
+      + apply IH; assumption.
+  Qed.
+
+  (** an enum without any case collision: every variant is matched ignoring case *)
+  Theorem no_collision_iff ku gu nu enum vs s v :
+    NoDup (map (fun w => lkey w) vs) -> names_ok ku gu vs ->
+    (enum_from lower ku gu nu enum vs s = Ok v <-> (In v vs /\ lower s = lkey v)).
+  Proof.
+    intros ND Hn.
+    assert (NDn : NoDup (map iname vs)).
+    { clear -ND. induction vs as [|a vs IH]; [constructor|]. cbn [map] in *. inversion ND as [|x l NI ND']; subst.
+      constructor; [|auto]. intros HI. apply NI. apply in_map_iff in HI as [w [E Hw]]. apply in_map_iff. exists w. rewrite E. auto. }
+    rewrite (enum_iff lower ku gu nu enum vs s v NDn Hn). split; intros [HI H]; (split; [exact HI|]).
+    - unfold unique_lower in H. rewrite (filter_key_single vs v ND HI) in H. exact H.
+    - unfold unique_lower. rewrite (filter_key_single vs v ND HI). exact H.
+  Qed.
+
+  (** an enum whose variants ALL share one lower-cased name (any size >= 2, odd or even): exact names only *)
+  Theorem all_collision_iff ku gu nu enum vs k s v :
+    NoDup (map iname vs) -> names_ok ku gu vs -> (forall w, In w vs -> lkey w = k) -> (2 <= length vs)%nat ->
+    (enum_from lower ku gu nu enum vs s = Ok v <-> (In v vs /\ s = iname v)).
+  Proof.
+    intros ND Hn Hk Hlen. rewrite (enum_iff lower ku gu nu enum vs s v ND Hn).
+    split; intros [HI H]; (split; [exact HI|]).
+    - unfold unique_lower in H. rewrite filter_all in H.
+      + destruct vs as [|a [|b r]]; cbn in Hlen; try lia. exact H.
+      + intros w Hw. apply str_eqb_eq. rewrite (Hk w Hw), (Hk v HI). reflexivity.
+    - unfold unique_lower. rewrite filter_all.
+      + destruct vs as [|a [|b r]]; cbn in Hlen; try lia. exact H.
+      + intros w Hw. apply str_eqb_eq. rewrite (Hk w Hw), (Hk v HI). reflexivity.
+  Qed.
+
+  (** in a collision group only the exact name is accepted; in particular other casings are rejected *)
+  Theorem collision_exact_only ku gu nu enum vs s v :
+    NoDup (map iname vs) -> names_ok ku gu vs -> unique_lower lower iname vs v = false ->
+    enum_from lower ku gu nu enum vs s = Ok v -> s = iname v.
+  Proof.
+    intros ND Hn Hu H. apply (enum_iff lower ku gu nu enum vs s v ND Hn) in H as [_ H]. rewrite Hu in H. exact H.
+  Qed.
+
+  (** matching of a unique variant only depends on the lower-cased input *)
+  Theorem case_insensitive_unique ku gu nu enum vs s s' v :
+    NoDup (map iname vs) -> names_ok ku gu vs -> unique_lower lower iname vs v = true ->
+    lower s = lower s' ->
+    enum_from lower ku gu nu enum vs s = Ok v -> enum_from lower ku gu nu enum vs s' = Ok v.
+  Proof.
+    intros ND Hn Hu Hs H. apply (enum_iff lower ku gu nu enum vs s v ND Hn) in H as [HI H].
+    apply (enum_iff lower ku gu nu enum vs s' v ND Hn). split; [exact HI|]. rewrite Hu in *. rewrite <- Hs. exact H.
+  Qed.
+
+  (** if lower-casing is idempotent on a unique variant's name, the lower-cased name parses too *)
+  Theorem lowercased_name_parses ku gu nu enum vs v :
+    NoDup (map iname vs) -> names_ok ku gu vs -> In v vs -> unique_lower lower iname vs v = true ->
+    lower (lkey v) = lkey v ->
+    enum_from lower ku gu nu enum vs (lkey v) = Ok v.
+  Proof.
+    intros ND Hn HI Hu Hid. apply (enum_iff lower ku gu nu enum vs _ v ND Hn). split; [exact HI|]. rewrite Hu. exact Hid.
+  Qed.
+
+  (** at most one variant can be the answer (the result is a function of the string), restated on the rule itself *)
+  Theorem rule_deterministic vs s v w :
+    NoDup (map iname vs) ->
+    (In v vs /\ if unique_lower lower iname vs v then lower s = lkey v else s = iname v) ->
+    (In w vs /\ if unique_lower lower iname vs w then lower s = lkey w else s = iname w) -> v = w.
+  Proof.
+    intros ND Hv Hw.
+    pose proof (enum_iff lower true true false (id_ []) vs s v ND (names_ok_unrawed vs)) as Iv.
+    pose proof (enum_iff lower true true false (id_ []) vs s w ND (names_ok_unrawed vs)) as Iw.
+    apply Iv in Hv. apply Iw in Hw. congruence.
+  Qed.
+End Shapes.
+
+(** the rejection's type name, for an enum that is not written as a raw identifier, is the enum's name *)
+Theorem err_name_plain lower ku gu nu enum vs s e :
+  raw enum = false -> enum_from lower ku gu nu enum vs s = Err e -> e = iname enum.
+Proof.
+  intros Hr H. apply err_names_enum in H. subst e. unfold shown, to_string. rewrite Hr. destruct nu; reflexivity.
+Qed.
+
+(** src/str.rs Display: the message determines the type name *)
+Theorem error_message_injective a b : error_message a = error_message b -> a = b.
+Proof.
+  unfold error_message. intros H. apply app_inv_head in H. apply app_inv_tail in H. exact H.
+Qed.
+
+(* ---- shapes: all-collision groups of odd size, mixed enums *)
+Definition s_ab : str := [97;98]. Definition s_Ab : str := [65;98]. Definition s_AB : str := [65;66].
+Definition s_aB : str := [97;66]. Definition s_X : str := [88].
+Example odd_all_collision_group :
+  let vs := [id_ s_ab; id_ s_Ab; id_ s_AB] in
+  enum_from ascii_lower true true false (id_ [69]) vs s_Ab = Ok (id_ s_Ab) /\
+  enum_from ascii_lower true true false (id_ [69]) vs s_aB = Err [69] /\
+  (forall s v, enum_from ascii_lower true true false (id_ [69]) vs s = Ok v <-> (In v vs /\ s = iname v)).
+Proof.
+  cbn zeta. split; [reflexivity|]. split; [reflexivity|]. intros s v.
+  apply (all_collision_iff ascii_lower true true false (id_ [69]) _ s_ab s v).
+  - cbn. repeat constructor; cbn; intros H; repeat destruct H as [H|H]; try discriminate; auto.
+  - apply names_ok_unrawed.
+  - intros w H. repeat destruct H as [<-|H]; try reflexivity. destruct H.
+  - cbn. lia.
+Qed.
+
+Example no_collision_enum :
+  let vs := [id_ s_ab; id_ s_X; raw_ s_fn] in
+  forall s v, enum_from ascii_lower true true false (id_ [69]) vs s = Ok v <-> (In v vs /\ ascii_lower s = ascii_lower (iname v)).
+Proof.
+  cbn zeta. intros s v. apply no_collision_iff.
+  - cbn. repeat constructor; cbn; intros H; repeat destruct H as [H|H]; try discriminate; auto.
+  - apply names_ok_unrawed.
+Qed.
+
+(* ---- which enums are accepted *)
+
+Theorem enum_accepts_iff fs : enum_accepts fs = true <-> (forall b, In b fs -> b = true).
+Proof. unfold enum_accepts. rewrite forallb_forall. reflexivity. Qed.
+
+(* ---- impl headers *)
+
+Definition bound_of (trait : str) (p : gparam * list str) : Prop :=
+  match fst p with GType _ => In trait (snd p) | _ => True end.
+
+(** newtype impl: every TYPE parameter carries the FromStr bound (after its own bounds), lifetimes and
+    const parameters are untouched, no default survives, the struct is applied to all parameters *)
+Theorem struct_header_spec trait name ps w :
+  let h := struct_header trait name ps w in
+  Forall (bound_of trait) (h_params h) /\
+  map fst (h_params h) = map gp ps /\
+  (forall p, In p ps -> match gp p with
+                        | GType _ => In (gp p, gp_bounds p ++ [trait]) (h_params h)
+                        | _ => In (gp p, gp_bounds p) (h_params h)
+                        end) /\
+  h_self h = (name, map (fun p => garg (gp p)) ps) /\ h_where h = w /\ h_trait h = trait.
+Proof.
+  cbn zeta. unfold struct_header, impl_params, add_ty_bound. cbn [h_params h_self h_where h_trait].
+  split; [|split; [|split; [|auto]]].
+  - apply Forall_forall. intros q Hq. rewrite map_map in Hq. apply in_map_iff in Hq as [p [<- Hp]].
+    unfold bound_of. destruct (gp p) eqn:E; cbn; rewrite ?E; cbn; auto. apply in_or_app. right. left. reflexivity.
+  - rewrite !map_map. apply map_ext. intros p. destruct (gp p) eqn:E; cbn; rewrite ?E; reflexivity.
+  - intros p Hp. rewrite map_map. destruct (gp p) eqn:E; apply in_map_iff; exists p; rewrite E; cbn; rewrite ?E; auto.
+Qed.
+
+(** enum impl: the declared parameters with their own bounds, nothing added *)
+Theorem enum_header_spec trait name ps w :
+  let h := enum_header trait name ps w in
+  h_params h = map (fun p => (gp p, gp_bounds p)) ps /\
+  h_self h = (name, map (fun p => garg (gp p)) ps) /\ h_where h = w /\ h_trait h = trait /\
+  In a_automatically_derived (h_attrs h).
+Proof. cbn zeta. unfold enum_header, impl_params. cbn. repeat split. right. right. left. reflexivity. Qed.
+
+(* ---- `V()` / `V{}` variants *)
+
+(** with `E::V {}` as the arm value (the source since bdb9bb9): every enum the macro accepts - variants
+    spelled `V`, `V()` or `V {}` in any mixture - has well-typed arms *)
+Theorem accepted_arms_typecheck braces : braces = true -> forall ss,
+  enum_accepts_shapes ss = true -> arms_typecheck braces ss = true.
+Proof.
+  intros -> ss H. unfold enum_accepts_shapes, enum_accepts, arms_typecheck in *. rewrite forallb_forall in *.
+  intros s Hs. cbn. apply H. apply in_map. exact Hs.
+Qed.
+
+(** ... and acceptance is exactly "no variant has a field" *)
+Theorem accepts_shapes_iff ss : enum_accepts_shapes ss = true <-> (forall s, In s ss -> s <> VFields).
+Proof.
+  unfold enum_accepts_shapes, enum_accepts. rewrite forallb_forall. split.
+  - intros H s Hs E. subst s. specialize (H false (in_map shape_empty ss VFields Hs)). discriminate.
+  - intros H b Hb. apply in_map_iff in Hb as [s [<- Hs]]. specialize (H s Hs). destruct s; try reflexivity. contradiction.
+Qed.
+
+(** unit-only enums were and are fine with either spelling of the arm value *)
+Theorem unit_only_ok braces ss : (forall s, In s ss -> s = VUnit) -> enum_accepts_shapes ss = true /\ arms_typecheck braces ss = true.
+Proof.
+  intros H. unfold enum_accepts_shapes, enum_accepts, arms_typecheck. rewrite !forallb_forall. split.
+  - intros b Hb. apply in_map_iff in Hb as [s [<- Hs]]. rewrite (H s Hs). reflexivity.
+  - intros s Hs. rewrite (H s Hs). destruct braces; reflexivity.
+Qed.
+
+(** regression: with the bare path `E::V` (before bdb9bb9) `enum E { A {}, B(), C }` was accepted and
+    its arms were not values of E; with `E::V {}` they are *)
+Example empty_fields_regression :
+  let ss := [VBraceEmpty; VTupleEmpty; VUnit] in
+  enum_accepts_shapes ss = true /\ arms_typecheck false ss = false /\ arms_typecheck true ss = true.
+Proof. repeat split. Qed.
